@@ -1,4 +1,6 @@
 import PewProofs.CsvDir
+import PewProofs.CsvTime
+import PewProofs.CsvDigits
 
 /-! # C04 — property theorems (statements only depend on `PewModel.CsvDir`) -/
 namespace Pew.CsvDir
@@ -236,6 +238,36 @@ theorem tofwerk_key_monotone_sufficient (tkey : List Nat → Int) (l : List (Ent
       rw [e2, this]
       simp [keyLe]
 
+/-- **The stamp → seconds conversion of the model is strictly monotone** on valid stamps (a real
+calendar date and time of day, as `time.strptime` accepts them, no leap seconds): pure arithmetic
+on the six numbers read from the file name, no time zone enters. -/
+theorem timegm_strictly_monotone (f g : List Nat) (hf : validStampB f = true) (hg : validStampB g = true)
+    (h : keyLt (f.map (fun (n : Nat) => (n : Int))) (g.map (fun (n : Nat) => (n : Int))) = true) :
+    timegm f < timegm g :=
+  timegm_strictMono f g (validStamp_of_B f hf) (validStamp_of_B g hg) h
+
+/-- hence TOFWERK files with valid stamps are sorted by their stamp -/
+theorem tofwerk_sorted_by_stamp (l : List (Entry α))
+    (hv : ∀ e ∈ l, validStampB (stampFields e.name.toList) = true) :
+    sortBy (fun e => sortKey .tofwerk timegm e.name) l = sortBy (fun e => acqKey .tofwerk e.name) l := by
+  apply tofwerk_key_monotone_sufficient
+  intro a ha b hb h
+  exact timegm_strictly_monotone _ _ (hv a ha) (hv b hb) h
+
+/-- **Nu / LDR digit key, same index width**: the code's key is the number formed by *all* digits of
+the stem, `int(p ++ d)` for the digits `p` contributed by a common prefix and the index digits `d`;
+for indices of equal width it orders like the index. -/
+theorem numkey_same_width (p d₁ d₂ : List Char) (h : d₁.length = d₂.length) :
+    (digitsNat (p ++ d₁) ≤ digitsNat (p ++ d₂)) ↔ (digitsNat d₁ ≤ digitsNat d₂) :=
+  numKey_same_width p d₁ d₂ h
+
+/-- **… and 9 sorts before 10 before 100**: a longer index without a leading zero has the larger key
+and is the larger index, whatever digits the common prefix contributes. -/
+theorem numkey_longer_index (p d₁ : List Char) (c : Char) (t : List Char) (hd₁ : ∀ x ∈ d₁, isDigit x = true)
+    (hc : 1 ≤ digitVal c) (hlen : d₁.length < (c :: t).length) :
+    digitsNat (p ++ d₁) < digitsNat (p ++ c :: t) ∧ digitsNat d₁ < digitsNat (c :: t) :=
+  numKey_longer p d₁ c t hd₁ hc hlen
+
 /-- the generic layout is sorted by the plain file name -/
 theorem generic_key_is_name (tkey : List Nat → Int) (name : String) :
     sortKey .generic tkey name = acqKey .generic name := rfl
@@ -327,6 +359,13 @@ example : keyLt (acqKey .tofwerk "IMG_2021.03.28-02h30m00s_AS.csv") (acqKey .tof
   decide
 
 example : autodetect exDir = .nu := by decide
+
+/-- "s1_ldr_9" / "s1_ldr_10": prefix digit 1, indices 9 and 10 -/
+example : digitsNat ("1".toList ++ "9".toList) = 19 ∧ digitsNat ("1".toList ++ "10".toList) = 110
+    ∧ (∀ x ∈ "9".toList, isDigit x = true) ∧ 1 ≤ digitVal '1' := by decide
+
+example : validStampB (stampFields "IMG_2021.03.28-02h30m00s_AS.csv".toList) = true := by decide
+example : validStampB [2020, 2, 29, 23, 59, 59] = true ∧ validStampB [2021, 2, 29, 0, 0, 0] = false := by decide
 
 end examples
 
